@@ -52,4 +52,12 @@ theorem join_columns (names : List Str) (rows : List Row) :
 example : (Cell.int .int 1).goEq (.int .int64 1) = false ∧ (Cell.int .int 1).goEq (.str [49]) = false ∧
     (Cell.int .int 1).goEq (.flt false (.fin 1)) = false ∧ Cell.nil.goEq .nil = true := by decide
 
+/-- "identical key (same type and value)" is exact: integer keys are equal only when type and value are — no
+detour through float64 (2⁵³ and 2⁵³+1 are different keys) -/
+theorem int_keys_exact (t u : IntTy) (a b : Int) :
+    Cell.goEq (.int t a) (.int u b) = true ↔ (t = u ∧ a = b) := by
+  simp [Cell.goEq]
+
+example : Cell.goEq (.int .int64 9007199254740992) (.int .int64 9007199254740993) = false := by decide
+
 end Goframe.C03
